@@ -393,3 +393,114 @@ contract(F + "AbstractDissimilarity._build_arrays_alignment",
                 ("after", "if unit is not None: ...", "assert forall([t, r], implies(t != i or r != annotator_i, raw(alignment_array)[t][r] == ARR0[t][r]))"),
                 ("after", "if unit is not None: ...", "assert forall(s, 0, kS, raw(alignment_array)[i][AIDX[nameAt(i, s)]] == ARR0[i][AIDX[nameAt(i, s)]])")],
          serves={"C03"})
+
+# =========================================================================================================
+# compile_d_mat (C04: the compiled kernel IS the documented formula with the object's own delta_empty: class invariant kappa == delta)
+# =========================================================================================================
+POSD = lambda: ObjT("PositionalSporadicDissimilarity", delta_empty=RealT(), d_mat=DMAT, categories=OptObjT(ObjT("SetStr")))   # noqa: E731
+ROWS = "forall([(x, AReal), (y, AReal)], "
+contract(F + "PositionalSporadicDissimilarity.compile_d_mat",
+         params={"self": POSD()}, returns=DMAT, modifies=[], macros=POS_MACROS,
+         ensures=[cl(ROWS + "implies(x[2] > 0 and y[2] > 0, result(x, y) == POS(x[0], x[1], x[2], y[0], y[1], y[2]) * self.delta_empty))",
+                     "C04", name="the-kernel-computes-the-documented-formula-with-this-object's-delta_empty")],
+         serves={"C04"})
+
+contract(F + "AbstractDissimilarity.check_if_dissim", params={"self": DISSIM()}, modifies=[], trusted=True,
+         raises={"ValueError": {}},
+         notes="ASSUMED: draws three random unit pairs with the stdlib generator and raises ValueError when the compiled kernel is not symmetric "
+               "or not zero on identical units; it changes nothing (reads self.d_mat and self.categories only)",
+         serves={"C04"})
+
+POS_INV = (ROWS + "implies(x[2] > 0 and y[2] > 0, self.d_mat(x, y) == POS(x[0], x[1], x[2], y[0], y[1], y[2]) * self.delta_empty))")
+contract(F + "AbstractDissimilarity.__init__#positional",
+         params={"self": POSD(), "categories": OptObjT(ObjT("SetStr")), "delta_empty": RealT()}, modifies=["self"], macros=POS_MACROS,
+         requires=["isnone(categories)"],
+         raises={"ValueError": {}},
+         ensures=[cl("self.delta_empty == delta_empty", "C04", name="delta_empty-stored"),
+                  cl("isnone(self.categories)", "C04", name="no-categories"),
+                  cl(POS_INV, "C04", name="class-invariant-kernel-uses-the-object's-delta_empty")],
+         serves={"C04"})
+
+contract(F + "PositionalSporadicDissimilarity.__init__",
+         params={"self": POSD(), "delta_empty": RealT()}, modifies=["self"], macros=POS_MACROS,
+         raises={"ValueError": {}},
+         calls={"super().__init__": F + "AbstractDissimilarity.__init__#positional"},
+         ensures=[cl("self.delta_empty == delta_empty", "C04", name="delta_empty-stored"),
+                  cl(POS_INV, "C04", name="class-invariant-kernel-uses-the-object's-delta_empty")],
+         serves={"C04"})
+
+# ---- absolute categorical
+ABSD = lambda: ObjT("AbsoluteCategoricalDissimilarity", delta_empty=RealT(), d_mat=DMAT, categories=OptObjT(ObjT("SetStr")))   # noqa: E731
+ABS_INV = ROWS + "self.d_mat(x, y) == (0 if x[3] == y[3] else 1) * self.delta_empty)"
+contract(F + "AbsoluteCategoricalDissimilarity.compile_d_mat", params={"self": ABSD()}, returns=DMAT, modifies=[],
+         ensures=[cl(ROWS + "result(x, y) == (0 if x[3] == y[3] else 1) * self.delta_empty)", "C04",
+                     name="the-kernel-computes-the-documented-formula-with-this-object's-delta_empty")],
+         serves={"C04"})
+for _v, _cls in (("AbstractDissimilarity.__init__#absolute", None), ("CategoricalDissimilarity.__init__#absolute", "AbstractDissimilarity.__init__#absolute")):
+    contract(F + _v, params={"self": ABSD(), "categories": OptObjT(ObjT("SetStr")), "delta_empty": RealT()}, modifies=["self"],
+             requires=["isnone(categories)"], raises={"ValueError": {}},
+             calls={"super().__init__": F + _cls} if _cls else {},
+             ensures=[cl("self.delta_empty == delta_empty and isnone(self.categories)", "C04", name="delta_empty-stored"),
+                      cl(ABS_INV, "C04", name="class-invariant-kernel-uses-the-object's-delta_empty")],
+             serves={"C04"})
+contract(F + "AbsoluteCategoricalDissimilarity.__init__", params={"self": ABSD(), "delta_empty": RealT()}, modifies=["self"],
+         raises={"ValueError": {}}, calls={"super().__init__": F + "CategoricalDissimilarity.__init__#absolute"},
+         ensures=[cl("self.delta_empty == delta_empty and isnone(self.categories)", "C04", name="delta_empty-stored"),
+                  cl(ABS_INV, "C04", name="class-invariant-kernel-uses-the-object's-delta_empty")],
+         serves={"C04"})
+
+# ---- combined (default components: positional-sporadic + absolute categorical)
+COMBD = lambda: ObjT("CombinedCategoricalDissimilarity", delta_empty=RealT(), d_mat=DMAT, categories=OptObjT(ObjT("SetStr")),   # noqa: E731
+                     positional_dissim=POSD(), categorical_dissim=ABSD(), alpha=RealT(), beta=RealT())
+COMB_FORMULA = ("alpha * (POS(x[0], x[1], x[2], y[0], y[1], y[2]) * delta_empty) + beta * ((0 if x[3] == y[3] else 1) * delta_empty)")
+COMB_INV = (ROWS + "implies(x[2] > 0 and y[2] > 0, self.d_mat(x, y) == self.alpha * (POS(x[0], x[1], x[2], y[0], y[1], y[2]) * self.delta_empty) + "
+            "self.beta * ((0 if x[3] == y[3] else 1) * self.delta_empty)))")
+contract(F + "CombinedCategoricalDissimilarity.compile_d_mat", params={"self": COMBD()}, returns=DMAT, modifies=[], macros=POS_MACROS,
+         requires=[ROWS + "implies(x[2] > 0 and y[2] > 0, self.positional_dissim.d_mat(x, y) == POS(x[0], x[1], x[2], y[0], y[1], y[2]) * self.delta_empty))",
+                   ROWS + "self.categorical_dissim.d_mat(x, y) == (0 if x[3] == y[3] else 1) * self.delta_empty)"],
+         ensures=[cl(ROWS + "implies(x[2] > 0 and y[2] > 0, result(x, y) == self.alpha * (POS(x[0], x[1], x[2], y[0], y[1], y[2]) * self.delta_empty) + "
+                     "self.beta * ((0 if x[3] == y[3] else 1) * self.delta_empty)))", "C04",
+                     name="alpha-times-positional-plus-beta-times-categorical-with-the-one-delta_empty")],
+         serves={"C04"})
+
+COMP_INV = [ROWS + "implies(x[2] > 0 and y[2] > 0, self.positional_dissim.d_mat(x, y) == POS(x[0], x[1], x[2], y[0], y[1], y[2]) * self.delta_empty))",
+            ROWS + "self.categorical_dissim.d_mat(x, y) == (0 if x[3] == y[3] else 1) * self.delta_empty)"]
+contract(F + "AbstractDissimilarity.__init__#combined",
+         params={"self": COMBD(), "categories": OptObjT(ObjT("SetStr")), "delta_empty": RealT()}, modifies=["self"], macros=POS_MACROS,
+         requires=["isnone(categories)",
+                   ROWS + "implies(x[2] > 0 and y[2] > 0, self.positional_dissim.d_mat(x, y) == POS(x[0], x[1], x[2], y[0], y[1], y[2]) * delta_empty))",
+                   ROWS + "self.categorical_dissim.d_mat(x, y) == (0 if x[3] == y[3] else 1) * delta_empty)"],
+         raises={"ValueError": {}},
+         ensures=[cl("self.delta_empty == delta_empty and isnone(self.categories)", "C04", name="delta_empty-stored"),
+                  cl("self.alpha == old(self.alpha) and self.beta == old(self.beta)", "C04", name="weights-kept"),
+                  cl(COMB_INV, "C04", name="class-invariant-combined-kernel")],
+         serves={"C04"})
+
+contract(F + "CombinedCategoricalDissimilarity.__init__#defaults",
+         params={"self": COMBD(), "alpha": RealT(), "beta": RealT(), "delta_empty": RealT(),
+                 "pos_dissim": OptObjT(POSD()), "cat_dissim": OptObjT(ABSD())}, modifies=["self"], macros=POS_MACROS,
+         requires=["isnone(pos_dissim)", "isnone(cat_dissim)"],
+         raises={"ValueError": {}},
+         calls={"super().__init__": F + "AbstractDissimilarity.__init__#combined"},
+         ensures=[cl("self.delta_empty == delta_empty and self.alpha == alpha and self.beta == beta", "C04", name="parameters-stored"),
+                  cl("self.positional_dissim.delta_empty == delta_empty and self.categorical_dissim.delta_empty == delta_empty", "C04",
+                     name="the-one-delta_empty-given-to-the-combined-dissimilarity-reaches-both-components"),
+                  cl(COMP_INV[0], "C04", name="positional-component-kernel-uses-that-delta_empty"),
+                  cl(COMP_INV[1], "C04", name="categorical-component-kernel-uses-that-delta_empty"),
+                  cl(COMB_INV, "C04", name="class-invariant-combined-kernel")],
+         serves={"C04"})
+
+contract(F + "CombinedCategoricalDissimilarity.__init__#supplied",
+         params={"self": COMBD(), "alpha": RealT(), "beta": RealT(), "delta_empty": RealT(),
+                 "pos_dissim": OptObjT(POSD()), "cat_dissim": OptObjT(ABSD())}, modifies=["self", "pos_dissim", "cat_dissim"], macros=POS_MACROS,
+         requires=["not isnone(pos_dissim)", "not isnone(cat_dissim)", "isnone(some(cat_dissim).categories)"],
+         raises={"ValueError": {}},
+         calls={"super().__init__": F + "AbstractDissimilarity.__init__#combined"},
+         ensures=[cl("self.delta_empty == delta_empty and self.alpha == alpha and self.beta == beta", "C04", name="parameters-stored"),
+                  cl("self.positional_dissim.delta_empty == delta_empty and self.categorical_dissim.delta_empty == delta_empty", "C04",
+                     name="the-one-delta_empty-given-to-the-combined-dissimilarity-reaches-both-components"),
+                  cl(COMP_INV[0], "C04", name="positional-component-kernel-uses-that-delta_empty"),
+                  cl(COMP_INV[1], "C04", name="categorical-component-kernel-uses-that-delta_empty"),
+                  cl(COMB_INV, "C04", name="class-invariant-combined-kernel")],
+         notes="components of the two built-in classes supplied by the caller, whatever delta_empty they were built with",
+         serves={"C04"})
